@@ -40,6 +40,8 @@ pub enum Tamper {
     ReplaceSigWithOtherEntitys { a: u16, b: u16 },
     RemoveKeyFromMap { which: u16 },
     WrongKeyForEntity { a: u16, b: u16 },
+    /// the entity keeps only a signature of an unknown algorithm / with an unparseable key id
+    OnlyUnsupportedSig { which: u16, unparseable: bool },
     // neutral
     ChangeUnsigned,
     AddUnknownAlgorithmSig { which: u16 },
@@ -364,6 +366,15 @@ pub fn oracle(c: &SignCase, cx: &mut CaseCtx) -> Result<(), String> {
                 Some(false)
             }
         }
+        Tamper::OnlyUnsupportedSig { which, unparseable } => {
+            let (ent, _, sig) = &sigs[pick_idx(*which, sigs.len())];
+            if let Some(V::Obj(all)) = t.get_mut("signatures") {
+                let kid = if *unparseable { "nocolon" } else { "dilithium:1" };
+                all.insert(ent.clone(), V::Obj([(kid.to_owned(), V::Str(sig.clone()))].into_iter().collect()));
+            }
+            cx.class("tamper_only_unsupported_signature");
+            Some(false)
+        }
         Tamper::ChangeUnsigned => {
             let nv = match t.get("unsigned") {
                 Some(u) => bump(u),
@@ -513,6 +524,7 @@ fn tamper() -> impl Strategy<Value = Tamper> {
         1 => (any::<u16>(), any::<u16>()).prop_map(|(a, b)| Tamper::ReplaceSigWithOtherEntitys { a, b }),
         1 => any::<u16>().prop_map(|which| Tamper::RemoveKeyFromMap { which }),
         1 => (any::<u16>(), any::<u16>()).prop_map(|(a, b)| Tamper::WrongKeyForEntity { a, b }),
+        1 => (any::<u16>(), any::<bool>()).prop_map(|(which, unparseable)| Tamper::OnlyUnsupportedSig { which, unparseable }),
         2 => Just(Tamper::ChangeUnsigned),
         1 => any::<u16>().prop_map(|which| Tamper::AddUnknownAlgorithmSig { which }),
     ]
@@ -545,7 +557,7 @@ pub fn run(ck: &mut Check) {
         },
         oracle,
     );
-    for cls in ["multi_signature", "ring_template_key", "pkcs8_v2_key", "with_unsigned", "tamper_signature_bit", "tamper_key_bit", "tamper_signed_content", "neutral_unsigned_changed", "tamper_key_missing"] {
+    for cls in ["multi_signature", "ring_template_key", "pkcs8_v2_key", "with_unsigned", "tamper_signature_bit", "tamper_key_bit", "tamper_signed_content", "neutral_unsigned_changed", "tamper_key_missing", "tamper_only_unsupported_signature"] {
         ck.floor("sign_verify_histories", cls, 100);
     }
     let n = ck.n(4_000, 100_000);
